@@ -23,13 +23,21 @@ Definition stacks_in (dec orig : tnode) : bool :=
                      | None => false
                      end) (t_den dec).
 
-(* the property's statement for one decoding, relative to the ORIGINAL tree only *)
-Definition spec_one (which : string) (orig : tnode) (cap : nat) (dec : option tnode) : list verdict :=
+(* the property's statement for one decoding, relative to the ORIGINAL tree only.
+   Below the cap the decoded tree must be the original up to zero-total frames.  When it is not, but the original
+   is inexact (some total exceeds self + children: Clone's independent flooring) and the decoded tree equals the
+   original WITH ITS TOTALS RECOMPUTED FROM THE SELF VALUES (same names, shape and per-stack self values; only
+   totals differ), the failure is the known finding scaled-totals-reloaded; anything else is a spec failure. *)
+Definition below_cap_verdict (which : string) (orig : tnode) (cap : nat) (exact : bool) (d : tnode) : verdict :=
+  if negb (Nat.ltb (t_size orig) cap) || t_eqb (t_strip0 d) (t_strip0 orig) then Ok
+  else if negb exact && t_eqb (t_strip0 d) (t_strip0 (t_retotal orig)) then Known "scaled-totals-reloaded"
+  else SpecFails (which ++ ": below the cap the decoded tree differs from the original (beyond zero-total frames)").
+
+Definition spec_one (which : string) (orig : tnode) (cap : nat) (exact : bool) (dec : option tnode) : list verdict :=
   match dec with
   | None => [SpecFails (which ++ ": decoding failed")]
   | Some d =>
-      [spec (negb (Nat.ltb (t_size orig) cap) || t_eqb (t_strip0 d) (t_strip0 orig))
-            (which ++ ": below the cap the decoded tree differs from the original (beyond zero-total frames)");
+      [below_cap_verdict which orig cap exact d;
        spec (stacks_in d orig) (which ++ ": decoded tree has a stack or a self value the original does not have");
        spec (t_exactb d) (which ++ ": decoded totals are not self + children")]
   end.
@@ -44,19 +52,17 @@ Definition opt_eqb (a b : option tnode) : bool :=
 Definition check_case (c : case) : verdict :=
   let t := c_orig c in
   let cap := c_cap c in
-  let good := t_wfb t && t_exactb t in      (* the property speaks about consistent profile trees *)
+  (* the property speaks about the trees the system holds: children sorted by name, total >= self + children
+     (Insert/Merge give equality, Clone keeps >=: C09) *)
+  let good := t_wfb t && t_subb t in
+  let exact := t_exactb t in
   let m_nodict := tc_deserialize_nodict (tc_serialize_nodict cap t) in
   let m_fresh := let '(bs, d) := tc_serialize cap t d_new in tc_deserialize d bs in
   let dpre := fold_left (fun d n => snd (d_put n d)) (c_pre c) d_new in
   let m_pre := let '(bs, d) := tc_serialize cap t dpre in tc_deserialize d bs in
+  (* order: SpecFails anywhere wins (combine_verdicts); otherwise a model difference is reported before a
+     known finding *)
   combine_verdicts (
-    (if good then
-       spec_one "dictionary encoding" t cap (c_dec_fresh c) ++
-       spec_one "dictionary encoding (dictionary with earlier entries)" t cap (c_dec_pre c) ++
-       spec_one "self-contained encoding" t cap (c_dec_nodict c) ++
-       [spec (opt_eqb (c_dec_fresh c) (c_dec_nodict c) && opt_eqb (c_dec_pre c) (c_dec_nodict c))
-             "the two encodings do not decode to the same tree"]
-     else []) ++
     [spec (c_src_untouched c) "encoding modified the source tree";
      corr (N.eqb (t_minval cap t) (c_minval c)) "t_minval differs from Tree.minValue";
      corr (opt_eqb m_nodict (c_dec_nodict c)) "model of SerializeNoDict/DeserializeNoDict differs";
@@ -65,4 +71,11 @@ Definition check_case (c : case) : verdict :=
      corr (match c_bad c with
            | None => true
            | Some (bs, r) => opt_eqb (tc_deserialize_nodict bs) r
-           end) "model of DeserializeNoDict differs on a malformed stream"])%list.
+           end) "model of DeserializeNoDict differs on a malformed stream"] ++
+    (if good then
+       spec_one "dictionary encoding" t cap exact (c_dec_fresh c) ++
+       spec_one "dictionary encoding (dictionary with earlier entries)" t cap exact (c_dec_pre c) ++
+       spec_one "self-contained encoding" t cap exact (c_dec_nodict c) ++
+       [spec (opt_eqb (c_dec_fresh c) (c_dec_nodict c) && opt_eqb (c_dec_pre c) (c_dec_nodict c))
+             "the two encodings do not decode to the same tree"]
+     else []))%list.
